@@ -867,6 +867,18 @@ class SymExec(object):
                         new_kwd = ('dict', tuple(((None, v_) if k_ is None else (('const', k_), v_)) for k_, v_ in rk_))
                         args = [r_[1]]
                         kws = tuple((k_, v_) for k_, v_ in kws if k_ not in ('args', 'kwds')) + (('args', ('tuple', tuple(r_[2]))), ('kwds', new_kwd))
+            if f[0] == 'attr' and f[2] == 'clear_features' and not kws and args and all(a_[0] == 'const' and isinstance(a_[1], str) for a_ in args):
+                # erasing feature names one after the other is erasing all of them: x.clear_features('nb').clear_features('X')
+                # reads x.clear_features('X', 'nb') (names in sorted order, so that one spelling stands for the set)
+                names_ = {a_[1] for a_ in args}
+                recv_ = f[1]
+                while recv_[0] == 'call' and recv_[1][0] == 'attr' and recv_[1][2] == 'clear_features' and not recv_[3] and recv_[2] \
+                        and all(a_[0] == 'const' and isinstance(a_[1], str) for a_ in recv_[2]):
+                    names_ |= {a_[1] for a_ in recv_[2]}
+                    recv_ = recv_[1][1]
+                if recv_ is not f[1] or [a_[1] for a_ in args] != sorted(names_):
+                    f = ('attr', recv_, 'clear_features')
+                    args = [('const', n_) for n_ in sorted(names_)]
             if f == ('name', 'int') and len(args) == 1 and not kws and args[0][0] == 'unop' and args[0][1] == 'not':
                 return ('ifexp', args[0][2], ('const', 0), ('const', 1))      # int(not b) is 0 if b else 1
             if f == ('name', 'len') and len(args) == 1 and not kws and args[0][0] == 'const' and isinstance(args[0][1], str):
@@ -1053,6 +1065,10 @@ class SymExec(object):
                     if other_[0] in ('cmp', 'bool', 'list', 'tuple', 'dict', 'set', 'fstr', 'listcomp', 'dictcomp') or \
                             (other_[0] == 'const' and other_[1] is not None) or (other_[0] == 'unop' and other_[1] == 'not'):
                         return ('const', op_ == 'is not')       # a truth value / a display is never None
+                    if other_[0] == 'name' and getattr(self, '_in_helper', 0) and self._declared_not_none(other_[1]):
+                        # inside a helper that was handed a parameter of the function under analysis whose annotation is a
+                        # plain class (x: Category): the declared type says it is not None
+                        return ('const', op_ == 'is not')
                 return ('cmp', op_, l_, r_)
             parts = []
             left = n.left
@@ -1223,6 +1239,18 @@ class SymExec(object):
             return None
         cache[key] = val
         return val
+
+    def _declared_not_none(self, name):
+        fn = self._stack[0] if getattr(self, '_stack', None) else None
+        if fn is None or not isinstance(fn, (ast.FunctionDef, ast.AsyncFunctionDef)):
+            return False
+        for a_ in fn.args.posonlyargs + fn.args.args + fn.args.kwonlyargs:
+            if a_.arg == name and a_.annotation is not None:
+                an = a_.annotation
+                if isinstance(an, (ast.Name, ast.Attribute)) and src(an) not in ('Optional', 'Any', 'object', 'None') and \
+                        not any(isinstance(x, ast.Name) and x.id == name and isinstance(x.ctx, (ast.Store, ast.Del)) for x in ast.walk(fn)):
+                    return True
+        return False
 
     def module_const(self, name, modtree=None):
         """term of a module-level name bound exactly once to a literal made of constants (str/num/tuples/sets/dicts)"""
